@@ -27,6 +27,22 @@ impl Endpoint {
     pub fn new(config: EndpointConfig, socket: std::net::UdpSocket) -> Result<Self> {
         let local_addr = socket.local_addr()?.pipe(RwLock::new);
         let server_config = config.server_config().clone();
+        #[cfg(bmwill_anemo_verif)]
+        let verif_socket = crate::verif::socket_for(socket.local_addr()?);
+        #[cfg(bmwill_anemo_verif)]
+        if let Some(abstract_socket) = verif_socket {
+            let endpoint = quinn::Endpoint::new_with_abstract_socket(
+                config.quinn_endpoint_config(),
+                Some(server_config),
+                abstract_socket,
+                Arc::new(quinn::TokioRuntime),
+            )?;
+            return Ok(Self {
+                inner: endpoint,
+                local_addr,
+                config,
+            });
+        }
         let endpoint = quinn::Endpoint::new(
             config.quinn_endpoint_config(),
             Some(server_config),
